@@ -145,8 +145,8 @@ func fnJobs(g *hc.Gen, budget int) []*job {
 	anas := sortedKeys(query.AnalyticFunctions)
 	total := len(names) + len(aggs) + len(anas) + 3
 	per := budget / total
-	if per < 24 {
-		per = 24
+	if per < 16 {
+		per = 16 // the floor of a quick run; the in-process fuzzer carries the volume
 	}
 	randArgs := func(k int, cols bool) []string {
 		a := make([]string, k)
